@@ -234,6 +234,9 @@ Definition mon_C02 (cs : amap pconf) (o : obs) (te : tid * event) : bool :=
                      && o_elapsed x && negb (o_stopreq x)
         | None => false
         end
+  | ERestartDecision true, Some i =>
+      (* the decision to relaunch is never taken once a stop / shutdown has been requested *)
+      negb (o_stopreq (oi_get o i))
   | EBackoffWait secs, Some i => N.eqb secs (N.max 1 (backoff (conf_of cs (o_nm (oi_get o i)))))
   | EProcEnded i SCompleted, _ =>
       (* the instance gave up: only legitimate when the policy does not ask for a relaunch *)
